@@ -9,6 +9,7 @@ import (
 	"encoding/hex"
 	"encoding/json"
 	"fmt"
+	"github.com/compose-spec/compose-go/v2/graph"
 	"io"
 	"math/rand"
 	"os"
@@ -287,6 +288,47 @@ func c19Worker(args []string) int {
 			r := sched.Run(*t.Cfg, ch)
 			r.Events = nil
 			results[i] = c19TaskResult{Violations: r.Violations, Detail: r}
+		case "travfree":
+			// the traversal running freely (no scheduler gates, whose channels would order the goroutines for the race detector):
+			// every service the options select is visited exactly once
+			var viol []string
+			for round := 0; round < 6; round++ {
+				var mu sync.Mutex
+				visits := map[string]int{}
+				done := make(chan error, 1)
+				go func() {
+					done <- graph.InDependencyOrder(context.Background(), sched.BuildProject(*t.Cfg), func(_ context.Context, name string, _ types.ServiceConfig) error {
+						mu.Lock()
+						visits[name]++
+						mu.Unlock()
+						runtime.Gosched()
+						return nil
+					}, sched.Options(*t.Cfg)...)
+				}()
+				select {
+				case err := <-done:
+					if err != nil {
+						viol = append(viol, "result: free-running traversal returns "+err.Error())
+					}
+				case <-time.After(20 * time.Second):
+					viol = append(viol, "hang: free-running traversal does not return")
+				}
+				mu.Lock()
+				for n := 1; n <= t.Cfg.N; n++ {
+					want := 0
+					if t.Cfg.Expected(n) {
+						want = 1
+					}
+					if visits[sched.Name(n)] != want {
+						viol = append(viol, fmt.Sprintf("result: service %d visited %d times by the free-running traversal, expected %d", n, visits[sched.Name(n)], want))
+					}
+				}
+				mu.Unlock()
+				if len(viol) > 0 {
+					break
+				}
+			}
+			results[i] = c19TaskResult{Violations: viol}
 		case "loads":
 			if baseline == nil {
 				for _, f := range job.Fixtures {
@@ -442,7 +484,7 @@ func c19RunJob(c *core.Ctx, name string, job c19Job, nontrivial func(c19Task) bo
 	for i, t := range job.Tasks {
 		c.Eval(name+t.key(), nontrivial(t))
 		for _, v := range results[i].Violations {
-			if t.Kind == "trav" && !(strings.HasPrefix(v, "hang") || strings.HasPrefix(v, "result")) {
+			if (t.Kind == "trav" || t.Kind == "travfree") && !(strings.HasPrefix(v, "hang") || strings.HasPrefix(v, "result")) {
 				continue // ordering/bound clauses of the traversal belong to C13
 			}
 			c.Report(core.Finding{Sig: t.Kind + ":" + sigOf(v), Detail: v + " — task " + t.key(), Replay: map[string]interface{}{"task": t, "result": results[i].Detail}})
@@ -560,6 +602,21 @@ func C19(c *core.Ctx) {
 		cfg := randomConfig(rng, 5)
 		ttasks = append(ttasks, c19Task{Kind: "trav", Cfg: &cfg, Seed: rng.Int63()})
 	}
+	// the same kind of configurations, without failing visitors or caller cancellation, running freely on all processors
+	var freeTasks []c19Task
+	for i := 0; i < nTrav/3; i++ {
+		cfg := randomConfig(rng, 6)
+		cfg.Fails, cfg.Ext = nil, false
+		freeTasks = append(freeTasks, c19Task{Kind: "travfree", Cfg: &cfg, Seed: rng.Int63()})
+	}
+	wg.Add(1)
+	go func() {
+		defer wg.Done()
+		ok := c19RunJob(c, "travfree", c19Job{Procs: 8, Tasks: freeTasks}, func(t c19Task) bool { return t.Cfg.N >= 2 })
+		mu.Lock()
+		okAll = okAll && ok
+		mu.Unlock()
+	}()
 	tshards := 4
 	for s := 0; s < tshards; s++ {
 		var part []c19Task
@@ -578,6 +635,7 @@ func C19(c *core.Ctx) {
 	wg.Wait()
 	c.Set("fanout_real_executions", len(ftasks))
 	c.Set("traversal_real_executions_under_race", len(ttasks))
+	c.Set("traversal_free_running_executions_under_race", len(freeTasks)*6)
 	c.AddTraces(int64(len(ftasks) + len(ttasks)))
 	c.Logf("fan-out: %d executions, traversal: %d executions (all under -race)", len(ftasks), len(ttasks))
 	if !okAll {
